@@ -198,6 +198,9 @@ static char vin_tok[NTOK + 1];
 static int vin_tokkind;
 static int the_token;
 static int body_lines; /* newlines inside the (empty) nested body */
+static int nested_names_file = -1;
+static int entry_line;
+static cfg_t root;
 
 int cfg_yylex(cfg_t *cfg)
 {
@@ -205,6 +208,8 @@ int cfg_yylex(cfg_t *cfg)
 	if (cur_level > base_level) {
 		/* body of a nested section / skipped section: served as empty, but it may span lines */
 		n_lex_nested++;
+		/* the context a diagnostic from inside the body would be reported with: does it name the file being read? */
+		nested_names_file = (cfg->filename != NULL && root.filename != NULL && strcmp(cfg->filename, root.filename) == 0);
 		cfg->line += body_lines;
 		cfg_yylval = "}";
 		return '}';
@@ -213,7 +218,8 @@ int cfg_yylex(cfg_t *cfg)
 	cfg_yylval = vin_tok;
 	return the_token;
 }
-void cfg_yylex_destroy(void) { }
+static int n_yydestroy;
+void cfg_yylex_destroy(void) { n_yydestroy++; }
 static int n_include;
 int cfg_lexer_include(cfg_t *cfg, const char *fname)
 {
@@ -323,6 +329,8 @@ static int pre_flags;
 static long pre_num[3];
 static char pre_str[3][NTOK + 1];
 static cfg_t *pre_sec[3];
+static long pre_sec0_a;
+static cfg_flag_t pre_sec0_aflags;
 static char pre_title[3][2];
 static char *pre_comment;
 static char pre_comment_txt[2];
@@ -385,7 +393,11 @@ static cfg_t *mk_section(cfg_opt_t *opt, const char *title)
 	sec->pff = NULL;
 	sec->name = heap_str(opt->name);
 	sec->flags = CTXF | (opt->flags & CFGF_KEYSTRVAL);
-	sec->filename = heap_str("f");
+	{
+		/* an existing instance was created while another file (or, by cfg_init(), no file at all) was read */
+		V_IN_BOOL(vin_sec_named);
+		sec->filename = vin_sec_named ? heap_str("e") : NULL;
+	}
 	sec->line = 1;
 	sec->errfunc = errfn;
 	sec->title = title ? heap_str(title) : NULL;
@@ -399,6 +411,15 @@ static cfg_t *mk_section(cfg_opt_t *opt, const char *title)
 		mk_subopt(&sec->opts[0], "a", CFGT_INT);
 		sec->opts[0].values[0]->number = 7;
 		sec->opts[0].def.number = 7;
+		{
+			/* the instance may already hold an explicitly assigned value for a (not its default) */
+			V_IN_BOOL(vin_sec_a_set);
+			V_IN_LONG(vin_sec_a);
+			if (vin_sec_a_set) {
+				sec->opts[0].values[0]->number = vin_sec_a;
+				sec->opts[0].flags = CFGF_DEFINIT | CFGF_MODIFIED;
+			}
+		}
 		mk_subopt(&sec->opts[1], "z", CFGT_STR);
 		sec->opts[1].values[0]->string = heap_str("q");
 		sec->opts[1].def.string = heap_str("q");
@@ -465,6 +486,10 @@ static void build_values(void)
 			O->values[i]->section = mk_section(O, NULL);
 #endif
 			pre_sec[i] = O->values[i]->section;
+			if (i == 0 && O->subopts != kv_opts) {
+				pre_sec0_a = pre_sec[0]->opts[0].values[0]->number;
+				pre_sec0_aflags = pre_sec[0]->opts[0].flags;
+			}
 			break;
 		}
 		default:
@@ -489,6 +514,10 @@ static void verif_step(cfg_t *cfg, int level, int force_state, struct pstate *ps
 	hook_calls++;
 	if (hook_calls == 1) {
 		int i;
+
+#ifdef VIA_PARSE_FP
+		cfg->line = entry_line; /* cfg_parse_fp() starts at line 1; the step happens later in the text */
+#endif
 
 		/* havoc the automaton's locals into the obligation's pre-state */
 		*ps->state = PSTATE;
@@ -596,10 +625,14 @@ int main(void)
 		V_IN_INT(vin_line);
 		V_ASSUME(vin_line >= 1 && vin_line < 100000);
 		root.line = vin_line;
+		entry_line = vin_line;
 	}
 	for (i = 0; i < NROOT; i++)
 		root_opts[i].nvalues = 0;
 	O = &root_opts[kind_index[KIND]];
+#ifdef NAMEROOT
+	O->name = "root"; /* a section option that happens to be called like the top-level context */
+#endif
 #ifdef WITH_VALIDCB
 	O->validcb = valid_cb;
 #endif
@@ -632,6 +665,11 @@ int main(void)
 		}
 		if (vin_modified && O->type != CFGT_SEC && O->type != CFGT_FUNC)
 			O->flags |= CFGF_MODIFIED;
+#ifdef SEC_NODEFAULT
+		/* CFG_SEC(..., CFGF_NODEFAULT): no instance is made by cfg_init() and the option is never marked initialised */
+		O->flags |= CFGF_NODEFAULT;
+		O->flags &= ~CFGF_DEFINIT;
+#endif
 	}
 	build_values();
 #ifdef WITH_PATH
@@ -703,6 +741,9 @@ int main(void)
 	 * passes level + 1 down); a symbolic level would make the hook's call counting symbolic */
 #ifdef FORCE10
 	rc = cfg_parse_internal(ctx, LEVEL, 10, NULL);
+#elif defined(VIA_PARSE_FP)
+	/* the step is entered the way applications enter it, through the real cfg_parse_fp() (LEVEL 0 only) */
+	rc = cfg_parse_fp(ctx, (FILE *)&root) == CFG_PARSE_ERROR ? STATE_ERROR : STATE_EOF;
 #else
 	rc = cfg_parse_internal(ctx, LEVEL, -1, NULL);
 #endif
